@@ -17,7 +17,7 @@ package html
 //   [ "<NAME>" ]       with/without an HTML element of the same name below the foreign one
 //   integration point  svg: <desc> (thorough also <foreignObject>, <title>); math: <mi> (thorough also
 //                      <annotation-xml encoding=text/html>)
-//   t1 t2              2 free tokens as in VerifC41_soup (start tag / end tag of every tag name, text, space, comment)
+//   t1 t2              2 free tokens: start tag / end tag of the first 17 tag names, text, space, comment (both tiers)
 // Oracle: c41parseDoc (no error = no recovered panic, link invariants, node types, Render succeeds); termination by
 // the engine's instruction bound.
 
@@ -42,7 +42,8 @@ func VerifC41_foreignNames() {
 		vfReach("html element of the same name below")
 	}
 	in += ip[0] + "<" + name + ">" + ip[1]
-	in += c41token("t1") + c41token("t2")
+	// the free tokens use the quick token set in both tiers (thorough widens NAME and the integration points)
+	in += c41tokenN("t1", c41quickTags, 3) + c41tokenN("t2", c41quickTags, 3)
 	in += "x<p>"
 	c41parseDoc(in, ParseOptionEnableScripting(true))
 	vfReach("end")
